@@ -48,6 +48,18 @@ func gtsCacheDir() (string, error) {
 	return dir, os.MkdirAll(dir, 0755)
 }
 
+// createdCaches lists the cache entries written by this process. An entry is
+// only worth keeping if the command that produced it succeeded: main removes
+// them when the command exits with a non-zero status.
+var createdCaches []string
+
+func discardCreatedCaches() {
+	for _, name := range createdCaches {
+		os.Remove(name)
+	}
+	createdCaches = nil
+}
+
 type ioDelegate struct {
 	infile  *os.File
 	outfile *os.File
@@ -140,6 +152,9 @@ func (d *ioDelegate) TryCache(h hash.Hash, data []byte) (bool, error) {
 		f, err := cache.CreateLevel(dir, h, rsum, dsum, flate.BestSpeed)
 		if err != nil && f != nil {
 			os.Remove(f.Name())
+		}
+		if f != nil {
+			createdCaches = append(createdCaches, f.Name())
 		}
 		d.cache = f
 		return false, nil
